@@ -21,10 +21,14 @@ as separate, named definitions:
 * `knownTargetType` – the value of `(:= x e)` used inside an expression, `x` already known, has the type
   recorded for `x`, not the type of `e` (the compiler's value of a bind is the *register of the target*).
 
-A plain assignment may be used **as a value** inside an expression (`typeOfV`, `checkStmtV`, … below);
-the former check, which confines assignments to statement level, is kept as `WellTypedStratified`
-(`typeOf`, `checkStmt`, …) and is the restriction of `WellTyped` to `Frag.Stratified` programs
-(`Lemmas/Accept2.lean`, `wellTyped_eq`).
+* `noBindCondition` – the top node of a `when` condition must not be an assignment (assignments *inside*
+  the operands of the top operator are fine): `compile_flag` wants the flag block to end in a temporary.
+
+An assignment – plain, or guarded (`if` / `!if` / `ewma` into a declared variable) – may be used **as a
+value** inside an expression, and inside a `when` condition (`typeOfG`, `typeOfV`, `checkStmtV`,
+`checkCondV`, … below); the former check, which confines assignments to statement level, is kept as
+`WellTypedStratified` (`typeOf`, `checkStmt`, …) and is the restriction of `WellTyped` to
+`Frag.Stratified` programs (`Lemmas/Accept2.lean`, `wellTyped_eq`).
 -/
 namespace Portus.Lang.Typing
 open Portus Portus.Lang
@@ -187,6 +191,14 @@ statement-level assignment (`checkPlain`) with two refinements the compiler dict
 * if `x` is new at the assignment but `r` itself assigns `x` (`(:= x (> (:= x 1) 0))`), no second
   local is created: the outer assignment re-types the local the inner one created (`setTy`).
 
+A **guarded** assignment `(:= x (if c v))`, `(:= x (!if c v))`, `(:= x (ewma a v))` may occur as a value
+too: `(:= Report.a (+ 1 (:= Report.b (if (> Ack.bytes_acked 0) 5))))`. The compiler compiles the guarded
+form into an instruction without result register and yields a placeholder (`Reg::None`); the only
+consumer of a placeholder is the `Op::Bind` arm with a Report / control register on the left
+(`bindEmit`), which makes that register the result of the instruction and yields it. So the nested
+form is `(:= x (if c v))` as an operand – never a bare `(if c v)` operand – with `x` declared
+(`guardedTargetDeclared`), and its type is the type recorded for `x` (`bindGuarded`).
+
 No hazard condition (`Frag.noHazard`) is needed for *acceptance*: the compiler accepts
 `(:= x (+ (:= x 1) (:= x 2)))`, and so does the check. The temporaries count `tmps` is unchanged:
 a bind allocates none. -/
@@ -219,29 +231,64 @@ def bindName : Op → Expr → Option Name
   | .bind, .atom (.name x) => some x
   | _, _ => none
 
-/-- type of a *value* expression (operators over atoms and nested plain assignments) and the
-environment it leaves; operands left to right. `none` = ill typed, or not a value expression
-(`if`, `!if`, `ewma` are statement forms). -/
-def typeOfV (Γ : Env) : Expr → Option (Ty × Env)
-  | .atom (.bool _) => some (.bool, Γ)
-  | .atom (.num _) => some (.num, Γ)
-  | .atom (.name x) => (lookup x Γ).map fun kt => (kt.2, Γ)
+/-- **named rule.** operand types of the guarded forms: `(if c v)`, `(!if c v)`: `c : Bool`, `v` of any
+type; `(ewma a v)`: `a : Num`, `v : Num`. (The compiler itself only wants two *values* here – neither
+operand may be an unbound placeholder –; the types are what the datapath expects.) -/
+def guardOk : Op → Ty → Ty → Bool
+  | .if, .bool, _ => true
+  | .notIf, .bool, _ => true
+  | .ewma, .num, .num => true
+  | _, _, _ => false
+
+/-- the `Op::Bind` arm on a *guarded* right-hand side (`(:= x (if c v))`, `(:= x (!if c v))`,
+`(:= x (ewma a v))`; the right operand is the placeholder `Reg::None`). `Γ`: the environment the target
+was looked up in, `Γ'`: the environment after the right-hand side. The target must be a declared
+(Report / control) variable (`guardedTargetDeclared`); the value is the register of `x`, of the type
+recorded for `x`. -/
+def bindGuarded (Γ Γ' : Env) (x : Name) : Option (Option Ty × Env) :=
+  if guardedTargetDeclared Γ x then (lookup x Γ).map fun kt => (some kt.2, Γ') else none
+
+/-- typing of an expression *as the compiler compiles it*, and the environment it leaves; operands left
+to right. The outcome is either a value of a type (`some τ`: operators over atoms and nested
+assignments) or the **unbound placeholder** of a guarded form (`none`: `(if c v)`, `(!if c v)`,
+`(ewma a v)`, the compiler's `Reg::None`). A placeholder is accepted in exactly one place: as the
+right-hand side of an assignment to a declared variable (`bindGuarded`); an operator, a guarded form
+or an assignment to anything else refuses it. The overall answer `none` = ill typed. -/
+def typeOfG (Γ : Env) : Expr → Option (Option Ty × Env)
+  | .atom (.bool _) => some (some .bool, Γ)
+  | .atom (.num _) => some (some .num, Γ)
+  | .atom (.name x) => (lookup x Γ).map fun kt => (some kt.2, Γ)
   | .sexp o l r =>
     match opSig o with
     | some (a, res) =>
-      match typeOfV Γ l with
-      | some (tl, Γ1) =>
-        match typeOfV Γ1 r with
-        | some (tr, Γ2) => if tl = a ∧ tr = a then some (res, Γ2) else none
-        | none => none
-      | none => none
+      match typeOfG Γ l with
+      | some (some tl, Γ1) =>
+        match typeOfG Γ1 r with
+        | some (some tr, Γ2) => if tl = a ∧ tr = a then some (some res, Γ2) else none
+        | _ => none
+      | _ => none
     | none =>
       match bindName o l with
       | some x =>
-        match typeOfV Γ r with
-        | some (τ, Γ') => bindValue Γ Γ' x τ
+        match typeOfG Γ r with
+        | some (some τ, Γ') => (bindValue Γ Γ' x τ).map fun p => (some p.1, p.2)
+        | some (none, Γ') => bindGuarded Γ Γ' x
         | none => none
-      | none => none
+      | none =>
+        match typeOfG Γ l with
+        | some (some tl, Γ1) =>
+          match typeOfG Γ1 r with
+          | some (some tr, Γ2) => if guardOk o tl tr then some (none, Γ2) else none
+          | _ => none
+        | _ => none
+  | _ => none
+
+/-- type of a *value* expression (operators over atoms and nested assignments, plain or guarded) and
+the environment it leaves. `none` = ill typed, or not a value (a bare `(if c v)`, `(!if c v)`,
+`(ewma a v)` is a placeholder, not a value). -/
+def typeOfV (Γ : Env) (e : Expr) : Option (Ty × Env) :=
+  match typeOfG Γ e with
+  | some (some τ, Γ') => some (τ, Γ')
   | _ => none
 
 /-- `(:= x e)` as a statement: the same rule as in value position -/
@@ -278,7 +325,9 @@ def checkRhsV (Γ : Env) (x : Name) : Expr → Option Env
     | _ => checkPlainV Γ x (.sexp o l r)
   | e => checkPlainV Γ x e
 
-/-- one statement; at most `maxTmps` temporaries per statement, nested assignments included -/
+/-- one statement; at most `maxTmps` temporaries per statement, nested assignments included.
+(`checkRhsV` spells out the three shapes of a statement; it is the value rule applied to the statement:
+`checkRhsV Γ x rhs = (typeOfV Γ (:= x rhs)).map (·.2)`, `Lemmas/AcceptValue.lean`, `checkRhsV_eq`.) -/
 def checkStmtV (Γ : Env) : Expr → Option Env
   | .none => some Γ
   | .sexp .bind (.atom (.name x)) rhs => if tmps rhs ≤ maxTmps then checkRhsV Γ x rhs else none
@@ -313,15 +362,34 @@ def checkEvents (Γ : Env) : List Event → Option Env
       | none => none
     else none
 
-/-- the same with assignments allowed as values in the bodies; conditions stay pure -/
+/-- **named rule.** the top node of a condition must not be an assignment: `compile_flag` makes the
+last instruction of the flag block write `__eventFlag`, and only accepts a block whose value is a
+*temporary* (or a boolean literal). `(when (:= flag (> Ack.bytes_acked 0)) …)` yields the register of
+`flag` and is rejected; `(when (&& (:= flag (> Ack.bytes_acked 0)) true) …)` yields a temporary and is
+accepted. (A guarded form at the top is not a value at all.) -/
+def noBindCondition : Expr → Bool
+  | .sexp o _ _ => (opSig o).isSome
+  | _ => true
+
+/-- a condition with assignments allowed as values in the operands of its top operator; the result
+is the environment the event body is typed in (a condition may create locals) -/
+def checkCondV (Γ : Env) (c : Expr) : Option Env :=
+  match typeOfV Γ c with
+  | some (Ty.bool, Γ') =>
+    if noBareBoolCondition c && noBindCondition c && decide (tmps c ≤ maxTmps) then some Γ' else none
+  | _ => none
+
+/-- the same with assignments allowed as values, in the bodies and in the conditions; the environment
+is threaded through the condition into the body -/
 def checkEventsV (Γ : Env) : List Event → Option Env
   | [] => some Γ
   | ev :: rest =>
-    if checkCond Γ ev.flag then
-      match checkBodyV Γ ev.body with
+    match checkCondV Γ ev.flag with
+    | some Γ0 =>
+      match checkBodyV Γ0 ev.body with
       | some Γ' => checkEventsV Γ' rest
       | none => none
-    else none
+    | none => none
 
 /-! ## Declarations -/
 
@@ -347,9 +415,11 @@ def initEnv (ds : List Decl) : Env := declEnv ds ++ builtinEnv
 
 /-- **The check.** Well-formed declarations, numeric literals that fit the immediate field (those
 inside nested assignments included), and every event well typed in the environment left by what
-precedes it. Nothing else is needed: `checkStmtV` / `typeOfV` only let through statements of the shape of
-`Frag.stmtOk2` (they answer `none` on anything else), and the hazard part of `Frag.stmtOk2` matters
-for the semantics, not for acceptance – the compiler accepts hazardous nestings. -/
+precedes it (condition, then body). Nothing else is needed: `checkStmtV` / `typeOfV` / `checkCondV`
+answer `none` on anything that is not an assignment statement over value expressions (a superset of
+the shape `Frag.stmtOk2`: guarded assignments as values and assignments inside conditions are outside
+the fragment of the semantic theorem), and the hazard part of `Frag.stmtOk2` matters for the
+semantics, not for acceptance – the compiler accepts hazardous nestings. -/
 def WellTyped (ds : List Decl) (evs : List Event) : Bool :=
   declsOk ds && Frag.LitsOk evs && (checkEventsV (initEnv ds) evs).isSome
 
